@@ -240,6 +240,8 @@ class Elastic(_Simu):
         Nn = self.mesh.Nn
 
         values = None
+        # results are stored at nodes unless the case below says otherwise
+        storedAtNodes = True
 
         if result in ["ux", "uy", "uz"]:
             values_n = self.displacement.reshape(Nn, -1)
@@ -282,12 +284,14 @@ class Elastic(_Simu):
 
         elif result == "Wdef_e":
             values = self._Calc_Psi_Elas(returnScalar=False)
+            storedAtNodes = False
 
         elif result == "ZZ1":
             return self._Calc_ZZ1()[0]
 
         elif result == "ZZ1_e":
             values = self._Calc_ZZ1()[1]
+            storedAtNodes = False
 
         elif ("S" in result or "E" in result) and ("_norm" not in result):
             # Strain and Stress calculation part
@@ -311,6 +315,7 @@ class Elastic(_Simu):
                 result=res,
                 coef=self.material.coef,
             )
+            storedAtNodes = False
 
         else:
             Terminal.MyPrintError(f"The result '{result}' is not implemented yet.")
@@ -318,7 +323,7 @@ class Elastic(_Simu):
 
         # end cases ----------------------------------------------------
 
-        return self.Results_Reshape_values(values, nodeValues)
+        return self.Results_Reshape_values(values, nodeValues, storedAtNodes)
 
     def _Calc_Psi_Elas(
         self,
